@@ -42,6 +42,18 @@ CHECKS = {
   text='Every call of exp, exp2, exp10, expm1, log, log2, log10, log1p, sin, cos, tan, asin, acos, atan, atan2, sinh, cosh, tanh, asinh, acosh, atanh, erf, erfc, tgamma, lgamma, pow (non-integer exponents) and of the 12 named constants is observed: the true value is enclosed by MPFR at working precision 96, 192, ... <= 16384 bits until it is separated from the format\'s breakpoints, then rounded once by the independent oracle; exactly rational results (exp 0, log 1, log2 of powers of two, pow with rational result, gamma of integers, ...) are recognised by exact tests and must come back unflagged. Workload: constants x every precision 1..130 (quick) / 1..400 (thorough) x 8 modes x float, subnormal and fixed-point targets; functions x all operands of small source formats (plus large-argument cases for bounded functions) x target precisions 1..6 / 1..12 and 24, 53, (64, 113, 200, 300) x modes x subnormal / fixed-point targets; the cases that needed the most enclosure bits are re-run under all 8 modes.',
   ref='DESIGN.md 1.3, 2/C03',
   note='Trusted: MPFR correct rounding of a single call and its IEEE special-case tables; vf/oracle/rnd.py. Cases whose separation needs more than 16384 bits or whose value leaves the MPFR exponent range are counted inconclusive (run is inconclusive above 5%).'),
+ 'C06': dict(
+  technique='generated source modules decorated by the real @fp.fpy, evaluated and compared with an independent spelling->Fraction parser and the rounding oracle',
+  category='exploration',
+  text='Thousands of literal spellings (integers up to 40 digits, decimals with up to 40 fraction digits, exponents -400..400 in e/E forms, underscores, leading/trailing zeros, integers above 2^53 written with an exponent, spellings halfway between two doubles, hex-float strings with 1..46 hex digits and exponents -1100..1100, rational(p, q), digits(m, e, b) with b in {2,3,7,10,16}, negated zeros) are written into real source files as one-line functions, compiled by the real front end and called: under REAL the value must be exactly the number spelled (sign of zero included); through round(<literal>) under narrow contexts it must be that number rounded once (no second rounding through Python\'s float); the bare literal under a narrow context must be the exact value or it rounded once.',
+  ref='DESIGN.md 2/C06',
+  note='Trusted: the 30-line spelling parser in vf/checks/c06.py and vf/oracle/rnd.py. Documented language semantics (E-Val): a bare literal is not rounded by the active context, so "rounded once" is observed through round(). Known finding F4 (float literals pre-rounded by Python) is reported as KNOWN-FINDING; every other mechanism still fails the check.'),
+ 'C20': dict(
+  technique='exhaustive operand-pair sweep of the real library functions under small float contexts, recombined with Fraction arithmetic; preconditions evaluated by the oracle',
+  category='exploration',
+  text='ideal_2sum, fast_2sum, classic_2sum, priest_2sum, ideal_2mul, fast_2mul, classic_2mul, ideal_fma, classic_2fma are called on every operand pair (sampled pairs in quick, sampled triples for fma) of float contexts with subnormals (p = 2..4 quick / 2..7 thorough, all 8 modes where the algorithm allows): the exact sum of the returned terms must equal the exact a+b / a*b / a*b+c and the leading term must be the context\'s rounding of it. ldexp is compared with the exact product rounded once (operands wider than the context included); split / modf / frexp are recombined exactly for every finite, zero, infinite and NaN operand of a window of encodings and every digit position.',
+  ref='DESIGN.md 2/C20',
+  note='Trusted: Fraction arithmetic; vf/oracle/rnd.py. Preconditions (counted as "pre_false" when they fail): RN mode for fast_2sum/classic_2sum/classic_2mul/classic_2fma; |a|>=|b| for fast_2sum; rounded result finite; exact error term representable; Veltkamp/Dekker need 2 <= s <= p-2 i.e. p >= 4 and no overflow of (2^s+1)*x; Boldo-Muller needs p >= 5; partial products not below the subnormal quantum.'),
 }
 
 NOT_YET = {}
